@@ -199,6 +199,106 @@ fn c12_middleware_new() {
     kani::cover!(code == 4 && client, "encrypted cookie with client state");
 }
 
+// ---------------------------------------------------------------------------------------------
+// "the session id never appears in the Debug output of the session"
+// ---------------------------------------------------------------------------------------------
+/// Where the Debug output goes: every piece of text is scanned for the marker character that the
+/// `uuid` shim writes whenever an id is rendered (Display, Debug, hex).
+struct Sink {
+    marker_seen: bool,
+    bytes: usize,
+}
+impl std::fmt::Write for Sink {
+    fn write_str(&mut self, s: &str) -> std::fmt::Result {
+        let b = s.as_bytes();
+        let mut i = 0;
+        while i < b.len() {
+            if b[i] == 1 {
+                self.marker_seen = true;
+            }
+            i += 1;
+        }
+        self.bytes += b.len();
+        Ok(())
+    }
+}
+
+#[cfg(not(test))]
+fn vtrace_dbg() {}
+#[cfg(test)]
+fn vtrace_dbg() {
+    vtrace("{\"kind\":\"c12dbg\"}".to_string());
+}
+
+/// `{:?}` (and `{:#?}`) of a session in every INV state of the given id kind: the real manual Debug
+/// impl of `Session`, the derived ones of `ServerState` / `ClientState` / `SessionConfig` /
+/// `SessionStore` and the real core::fmt run; the id (old, current or fresh) is never rendered and
+/// never even read while formatting.
+fn debug_body(only: IdK, pretty: bool) -> usize {
+    // configuration and remaining ttl are concrete: they do not decide what is printed about the id,
+    // and formatting symbolic integers / the f32 threshold is beyond CBMC
+    let mut sh = any_shape_k(Some(only));
+    sh.rem_ttl = 7;
+    let db = any_db();
+    {
+        let mut g = db.borrow_mut();
+        let mut i = 0;
+        while i < 4 {
+            if g.recs[i].present {
+                g.recs[i].ttl = 7;
+            }
+            i += 1;
+        }
+    }
+    nd::assume(inv(&sh, &db.borrow()));
+    let mut st = SessionStateConfig::default();
+    st.ttl_extension_threshold = None;
+    let cfg = leak_config(st, SessionCookieConfig::default());
+    let store: &'static SessionStore = Box::leak(Box::new(SessionStore::new(Mem(db))));
+    let allow = true;
+    let db0 = db.borrow().recs;
+    let w = World { raced: false, sh, db, store, cfg, allow, model: abs(&sh), db0 };
+    vtrace_world(&w);
+    vtrace_dbg();
+    let s = build(&w.sh, w.store, w.cfg);
+    let mut out = Sink { marker_seen: false, bytes: 0 };
+    unsafe {
+        uuid::verif::LEAKED = false;
+        uuid::verif::FORMATTING = true;
+    }
+    let r = if pretty { std::fmt::write(&mut out, format_args!("{:#?}", s)) } else { std::fmt::write(&mut out, format_args!("{:?}", s)) };
+    unsafe { uuid::verif::FORMATTING = false };
+    assert!(r.is_ok(), "formatting a session failed");
+    assert!(!out.marker_seen, "the Debug output of the session contains a session id");
+    assert!(!unsafe { uuid::verif::LEAKED }, "a session id was read while the session was being formatted");
+    std::mem::forget(s);
+    out.bytes
+}
+
+// @tier quick
+// @obligation format!(\"{:?}\", session) for every INV state of a session known under its id or freshly created (all server/client state kinds, map contents, invalidated or not): the real Debug impl of Session and the derived ones of its fields run through the real core::fmt; no session id is rendered into the output and none is read while formatting
+// @bounds session state as C11 (keys {a,b}, 3 values, all state kinds); configuration and remaining ttl concrete (default config, no ttl threshold, 7 s)
+// @functions <Session as Debug>::fmt, <ServerState as Debug>::fmt, <ClientState as Debug>::fmt, <InvalidationFlag as Debug>::fmt, <SessionConfig as Debug>::fmt, <SessionStore as Debug>::fmt
+// @timeout 1500
+#[kani::proof]
+#[kani::unwind(32)]
+fn c12_debug_redacts_id_existing_or_new() {
+    let k = if nd::any_bool() { IdK::Existing } else { IdK::NewlyGenerated };
+    let n = debug_body(k, false);
+    kani::cover!(n > 40, "something was printed");
+}
+
+// @tier quick
+// @obligation as c12_debug_redacts_id_existing_or_new, for a session whose id was cycled (old and new id)
+// @bounds as c12_debug_redacts_id_existing_or_new
+// @functions <Session as Debug>::fmt and the Debug impls of its fields
+// @timeout 1500
+#[kani::proof]
+#[kani::unwind(32)]
+fn c12_debug_redacts_id_renamed() {
+    let n = debug_body(IdK::ToBeRenamed, false);
+    kani::cover!(n > 40, "something was printed");
+}
 
 #[cfg(test)]
 mod native_search {
@@ -208,5 +308,5 @@ mod native_search {
         serde_json::verif::set_tape(serde_json::verif::EMPTY_TAPE);
     }
     macro_rules! searches { ($($h:ident),*) => { $( #[test] fn $h() { nd::search(stringify!($h), super::$h, reset) } )* } }
-    searches!(c12_middleware_existing, c12_middleware_renamed, c12_middleware_new);
+    searches!(c12_middleware_existing, c12_middleware_renamed, c12_middleware_new, c12_debug_redacts_id_existing_or_new, c12_debug_redacts_id_renamed);
 }
